@@ -1,11 +1,13 @@
 package bitcoin_reader
 
 import (
+	"bytes"
 	"fmt"
 
 	"github.com/pkg/errors"
 	"github.com/tokenized/bitcoin_reader/headers"
 
+	"github.com/tokenized/pkg/bitcoin"
 	"github.com/tokenized/pkg/wire"
 )
 
@@ -136,6 +138,60 @@ func VerifC13Selection() {
 		if !n.IsReady() {
 			verifAssert(len(n.outgoingMsgChannel.Channel) == 0, "tx-sent-to-not-ready-node")
 		}
+	}
+	verifReach("done")
+}
+
+func init() {
+	verifHarnesses["VerifC03Node"] = VerifC03Node
+}
+
+// VerifC03Node: a peer is treated as verified only if the first header of its reply to the
+// verification request hashes to the BSV split header (real headers.Repository.VerifyHeader,
+// digest uninterpreted); any other reply, including an empty one, leaves it unverified and
+// disconnected; verify-only nodes disconnect after success.
+func VerifC03Node() {
+	e := newNetEnv(nondetBool("with-tx-manager"))
+	repo := realHeaders()
+	e.node.headers = repo
+	e.node.handshakeIsComplete.Store(true)
+	verifyOnly := nondetBool("verify-only")
+	if verifyOnly {
+		e.node.SetVerifyOnly()
+	}
+	count := pick("count", 3)
+	payload := []byte{byte(count)}
+	var first *wire.BlockHeader
+	for i := 0; i < count; i++ {
+		raw := nondetBytes(fmt.Sprintf("header%d", i), 80)
+		if i == 0 {
+			first = &wire.BlockHeader{}
+			first.Deserialize(bytes.NewReader(raw))
+		}
+		payload = append(payload, raw...)
+		payload = append(payload, 0)
+	}
+	e.conn.in = frameMsg(wire.CmdHeaders, payload, false)
+	err := e.node.handleMessage(e.ctx, e.conn)
+	bsv, _ := bitcoin.NewHash32FromStr("000000000000000001d956714215d96ffc00e0afda4cd0a96c96f8d802b1662b")
+	isBSV := false
+	if first != nil {
+		isBSV = first.BlockHash().Equal(bsv)
+	}
+	verifObserve("node", count, verifyOnly, err == nil)
+	if isBSV {
+		verifReach("bsv-reply")
+		verifAssert(e.node.Verified(), "bsv-split-reply-not-verified")
+		if verifyOnly {
+			verifAssert(e.conn.closed, "verify-only-node-not-disconnected-after-verification")
+		} else {
+			verifAssert(e.node.IsReady(), "verified-full-node-not-ready")
+		}
+	} else {
+		verifReach("other-reply")
+		verifAssert(!e.node.Verified(), "peer-verified-without-the-bsv-split-header")
+		verifAssert(!e.node.IsReady(), "unverified-peer-is-ready")
+		verifAssert(e.conn.closed, "unverified-peer-not-disconnected")
 	}
 	verifReach("done")
 }
